@@ -283,6 +283,8 @@ def step (st : St) (line : String) : St × String :=
     | "lopen_abs" :: r => "lopen" :: r
     | "lopen_auto_abs" :: r => "lopen_auto" :: r
     | ["lcommit_cd", l, _] => ["lcommit", l]
+    -- a target named relative to another working directory is the file <dir>/<rel> below the scratch root
+    | ["link_to_cd", f, c, k, rel, dir] => ["link_to", f, c, k, "rel:" ++ dir ++ "/" ++ rel]
     | t => t
   let bad := (st, "err badarg")
   match toks with
